@@ -1570,18 +1570,36 @@ def b_print(ex, st, args, kwargs, node):
     return None
 
 
+class IterState:
+    """An iterator object: the underlying sequence and how many items were consumed (a concrete count)."""
+
+    def __init__(self, n, at, pos=0):
+        self.n, self.at, self.pos = n, at, pos
+
+
 @builtin("next")
 def b_next(ex, st, args, kwargs, node):
+    if len(args) != 1:
+        raise Unsupported("next() with a default")
     v = st.get(args[0])
-    if isinstance(v, (Seq, IterV)):
-        bounds(ex, st, v.n, 0, node)
-        return v.at(0)
-    raise Unsupported("next()")
+    if isinstance(v, IterState) and not isinstance(v.pos, int):
+        raise Unsupported("next() on an iterator that a for-loop consumed")
+    if isinstance(v, IterState) and isinstance(args[0], Ref):
+        # StopIteration must be impossible here (obligation), then the item at the cursor; the cursor moves on
+        bounds(ex, st, v.n, v.pos, node)
+        item = v.at(v.pos)
+        st.put(args[0], IterState(v.n, v.at, v.pos + 1))
+        return item
+    raise Unsupported("next() on something that is not an iterator created by iter()")
 
 
 @builtin("iter")
 def b_iter(ex, st, args, kwargs, node):
-    return args[0]
+    v = st.get(args[0])
+    if isinstance(v, IterState):
+        return args[0]
+    n, at = ex.iter_desc(args[0], st)
+    return st.alloc(IterState(n, at, 0))
 
 
 class ExtName:
